@@ -261,6 +261,12 @@ def _written_grids(target, out):
         e = [b for b in t["blocks"] if b["kind"] == "embe"][0]
         res["r"] = (p["n"], None, p["end"], 1e-13 * abs(p["end"]))
         res["rho"] = (e["n"], None, e["end"], 1e-13 * abs(e["end"]))
+        # every function of r (pair and density blocks) is on the r grid, every embedding function on the rho grid
+        for b in t["blocks"]:
+            ax = "rho" if b["kind"] == "embe" else "r"
+            if (b["n"], b["end"]) != (res[ax][0], res[ax][2]):
+                res[ax] = (b["n"], None, b["end"], res[ax][3])
+                break
     return res
 
 
@@ -343,7 +349,7 @@ def check_case(case):
         except Exception as e:
             v.append(("write:exception:%s@%s" % (type(e).__name__, libroute.innermost_atsim_frame(e)), "%r\n%s" % (e, text)))
             return {"v": v, "cls": cls, "nt": nt}
-        for ax, want in (("r", wr), ("rho", wrho)):
+        for ax, want in (("rho", wrho), ("r", wr)) if target.startswith("DL_POLY_EAM") else (("r", wr), ("rho", wrho)):
             if ax not in g or want is None:
                 continue
             n, step, end, tol = g[ax]
